@@ -262,6 +262,7 @@ class RecordingDesigner(vza.PartiallySerializableDesigner):
         'event': 'update', 'fresh': self.fresh and not self.updated, 'n': self.n,
         'completed': sorted(t.id for t in completed.trials),
         'completed_x': {t.id: _x_of(t) for t in completed.trials},
+        'completed_content': {t.id: content_of(t) for t in completed.trials},
         'active': sorted(t.id for t in all_active.trials),
     })
     self.updated = True
@@ -315,6 +316,7 @@ def recording_real_designers():
       RecordingDesigner.LOG.append({
           'event': 'update', 'fresh': not st['loaded'] and not st['updated'], 'n': None,
           'completed': sorted(t.id for t in completed.trials),
+          'completed_content': {t.id: content_of(t) for t in completed.trials},
           'active': sorted(t.id for t in all_active.trials),
       })
       st['updated'] = True
@@ -333,6 +335,17 @@ def recording_real_designers():
     for cls, u, l in saved:
       cls.update, cls.load = u, l
     state.clear()
+
+
+def content_of(t):
+  """What a delivered (or stored) completed trial says: parameters, final metrics, infeasibility."""
+  try:
+    fm = None
+    if t.final_measurement is not None:
+      fm = tuple(sorted((k, round(float(v.value), 9)) for k, v in t.final_measurement.metrics.items()))
+    return (_x_of(t), fm, bool(t.infeasible))
+  except Exception:  # pylint: disable=broad-except
+    return None
 
 
 def _x_of(t):
